@@ -32,7 +32,8 @@ UNPROVED = ["bit-identity with the sequential dot on exact-sum data is tied bitw
 MANIFEST = dict(
     text=("Theorems about the Gallina model of Vector<f64>::dot_f64 (coq/Model/ParDot.v), for every length, every worker count t >= 1 "
           "and all data: chunks_cover (the (start,end) pairs are in range, contiguous, begin at 0, end at len and the slices concatenate "
-          "to the whole vector, including len < t and t not dividing len), pardot_exact (over any ring the chunked sum equals the "
+          "to the whole vector, including len < t and t not dividing len), pardot_closed_form (for any arithmetic, floats included, the result "
+          "is the partial dots of the slices added from 0 in spawn order: a reassociation fixed by (len, t)), pardot_exact (over any ring the chunked sum equals the "
           "sequential dot), schedule_independent (for any arithmetic, floats included, and every completion order of the workers the "
           "joined result is the same expression, hence bit-identical). Tie: the executor is re-run under taskset for every CPU count "
           "1..16, reports num_cpus::get() in-process, and every result for every length 0..200 (plus longer ones) is compared "
